@@ -16,6 +16,7 @@ import EinoV.Proofs.C02Confluence
 import EinoV.Proofs.C02CompileWF
 import EinoV.Proofs.C02CompileWWF
 import EinoV.Proofs.C02LockStep
+import EinoV.Proofs.C02Success
 import EinoV.Proofs.C02EagerConfluence
 import EinoV.Model.C03Loop
 import EinoV.Proofs.C03Loop
@@ -758,9 +759,7 @@ open EinoV.Engine EinoV.Engine.DagRun in
 /-- **dag_returning_run_is_not_outlasted.** If a run returns a value, no run under another fair
     schedule executes more steps: it has executed the same tasks by then, so END is enabled, and a
     run never goes on once END is enabled (`C02.dag_returns_as_soon_as_end_is_enabled`).
-    What is *not* proved: that the other run returns a value too — it could still fail inside the
-    scheduling round (a branch condition or a merge failing under one order and not the other is
-    excluded only for its tasks, which are the same); see DESIGN.md §7. -/
+    (That the other run returns the value too is `dag_success_schedule_independent`.) -/
 theorem dag_returning_run_is_not_outlasted {V : Type} (ops : ValOps V) (hm : MergePerm ops) (r : Runner V)
     (wf : DagWF r) (wf2 : DagWF2 r) (wf3 : DagWF3 r) (sA sB : Sched V) (hfA : sA.Fair) (hfB : sB.Fair) (x v : V)
     (hA : (runS ops r sA x).result = .ok v) :
@@ -772,12 +771,37 @@ open EinoV.Engine EinoV.Engine.DagRun in
     schedule every task that is executed succeeds: the other run executes, step by step, tasks the
     returning run executed too (`dag_steps_schedule_independent`, `dag_returning_run_is_not_outlasted`),
     and a run that returns a value has no failed task.  So a schedule-dependent node failure is
-    impossible; what remains unproved for the other run is only that its scheduling rounds do not fail. -/
+    impossible (and neither is a schedule-dependent failure of a scheduling round:
+    `dag_success_schedule_independent`). -/
 theorem dag_success_excludes_node_failures {V : Type} (ops : ValOps V) (hm : MergePerm ops) (r : Runner V)
     (wf : DagWF r) (wf2 : DagWF2 r) (wf3 : DagWF3 r) (sA sB : Sched V) (hfA : sA.Fair) (hfB : sB.Fair) (x v : V)
     (hA : (runS ops r sA x).result = .ok v) :
     ∀ t, t ∈ (runS ops r sB x).trace.flatten → (outOf r t).isSome = true :=
   run_ok_other_no_node_failure ops hm r wf wf2 wf3 sA sB hfA hfB x v hA
+
+open EinoV.Engine EinoV.Engine.DagRun in
+/-- **dag_success_schedule_independent** (the clause at full strength for the batch loop).  For a
+    well-formed acyclic all-predecessor runner, a permutation-invariant merge, every input and any
+    two fair completion schedules: *if one run returns a value, so does the other, and it is the
+    same value.*  Whether a run succeeds does not depend on the completion order either.
+    Proof (`Proofs/C02Success.lean`): the two loops are followed in lock step from states whose
+    traces agree; a round of the second run cannot fail, because a failing round fails for a reason
+    that can be read off the completions (`round_err`: a branch condition of a task that just
+    completed fails; END is skipped; an enabled, not yet started node has exactly-routed inputs that
+    do not merge) and none of them holds for the first run, whose round did not fail (`round_ok`)
+    and which later returns a value (`loop_end_skipped_fails`). -/
+theorem dag_success_schedule_independent {V : Type} (ops : ValOps V) (hm : MergePerm ops) (r : Runner V)
+    (wf : DagWF r) (wf2 : DagWF2 r) (wf3 : DagWF3 r) (sA sB : Sched V) (hfA : sA.Fair) (hfB : sB.Fair) (x v : V)
+    (hA : (runS ops r sA x).result = .ok v) : (runS ops r sB x).result = .ok v :=
+  run_success_sched_independent ops hm r wf wf2 wf3 sA sB hfA hfB x v hA
+
+open EinoV.Engine EinoV.Engine.DagRun in
+/-- **compiled_graph_success_schedule_independent.** … for every well-formed acyclic graph definition. -/
+theorem compiled_graph_success_schedule_independent {V : Type} (ops : ValOps V) (hm : MergePerm ops)
+    (slack : Nat) (g : GraphDef V) (w : GraphDefWF g) (sA sB : Sched V) (hfA : sA.Fair) (hfB : sB.Fair) (x v : V)
+    (hA : (runS ops (compile slack g) sA x).result = .ok v) : (runS ops (compile slack g) sB x).result = .ok v :=
+  have h := compile_wf slack g w
+  run_success_sched_independent ops hm _ h.1 h.2.1 h.2.2 sA sB hfA hfB x v hA
 
 open EinoV.Engine EinoV.Engine.DagRun in
 /-- **dag_wf3_check_sound.** The executable check of `DagWF3` (evaluated by the C02 oracle on every
